@@ -139,7 +139,7 @@ class Model:
     notes: list[str] = field(default_factory=list)
 
 
-PUT_METHODS = {"append": "R", "appendleft": "L", "extend": "R"}
+PUT_METHODS = {"append": "R", "appendleft": "L", "extend": "R", "extendleft": "L"}
 TAKE_METHODS = {"pop": "R", "popleft": "L"}
 
 
@@ -188,10 +188,15 @@ def build_model(func: Func, mode: dict[str, Any]) -> Model:
     seqenv: dict[str, Seq] = {}
 
     def handle_put(call: ast.Call, cont: str, method: str, env: dict[str, Seq], loop_ctx: tuple[Seq, ast.expr] | None, sink: list[Put]) -> None:
-        if method in ("extendleft", "insert"):
-            raise Unsupported(f"{method} on the worklist", call)
+        if method == "insert":
+            # insert(0, x) is appendleft(x); any other position is outside the calculus
+            if len(call.args) == 2 and is_const(call.args[0], 0):
+                call = ast.copy_location(ast.Call(func=call.func, args=[call.args[1]], keywords=[]), call)
+                method = "appendleft"
+            else:
+                raise Unsupported("insert at a position other than 0 on the worklist", call)
         side = PUT_METHODS[method]
-        if method == "extend":
+        if method in ("extend", "extendleft"):  # extendleft(seq) == for x in seq: appendleft(x)
             s = eval_seq(call.args[0], env)
             if s is None:
                 raise Unsupported(f"cannot resolve sequence {norm(call.args[0])[:60]}", call)
